@@ -62,8 +62,12 @@ Theorem T17_marked_entries : forall l inv s,
 Proof. exact (entries_correct the_shape T17_union_minus_excludes). Qed.
 Print Assumptions T17_marked_entries.
 
-(* ParseRegexpListItem recovers the mark and the rule text from an entry's text. *)
-Theorem T17_entry_text_roundtrip : forall e, parse_entry (entry_text e) = (fst e, show (snd e)).
+(* ParseRegexpListItem recovers the mark and the rule text from an entry's text: exactly one leading '-' is the
+   mark, also when the excluded expression itself begins with hyphens ("--staging\." excludes "-staging\.");
+   an include rule whose text begins with '-' cannot be written. *)
+Theorem T17_entry_text_roundtrip : forall e,
+  fst e = true \/ has_prefix (show (snd e)) [45] = false ->
+  parse_entry (entry_text e) = (fst e, show (snd e)).
 Proof. exact (fun e => parse_entry_roundtrip e ob_exclude_prefix). Qed.
 Print Assumptions T17_entry_text_roundtrip.
 
